@@ -291,4 +291,28 @@ theorem leafTree_soundOn (docs : List ADoc) (hw : DocsWf docs) :
     simp [semLeaf, implFuzzyMatch]
   | regex f lang => simp only [leafTree, mem]; exact hc
 
+theorem sortedB_sound : ∀ (l : List Nat), sortedB l = true → l.Pairwise (· ≤ ·) := by
+  intro l
+  induction l with
+  | nil => intro _; simp
+  | cons a r ih =>
+    cases r with
+    | nil => intro _; simp
+    | cons b r' =>
+      intro h
+      simp only [sortedB, Bool.and_eq_true, decide_eq_true_eq] at h
+      have hr := ih h.2
+      rw [List.pairwise_cons]
+      refine ⟨?_, hr⟩
+      intro x hx
+      rcases List.mem_cons.mp hx with rfl | hx
+      · exact h.1
+      · exact Nat.le_trans h.1 ((List.pairwise_cons.mp hr).1 x hx)
+
+theorem docsWfB_sound (docs : List ADoc) (h : docsWfB docs = true) : DocsWf docs := by
+  intro d hd p hp
+  have h1 := List.all_eq_true.mp h d hd
+  have h2 := List.all_eq_true.mp h1 p hp
+  exact sortedB_sound _ h2
+
 end TantivyModel.BoolCompile
